@@ -4,8 +4,9 @@ Specs: spec/FnEval.tla (expression language; DEFINITIONAL environment-passing se
 Eval/Apply; definitional expansions of for-each, filter, fold-left, fold-right, for-each-pair,
 apply, sort; implementation-shaped evaluator EvalI), spec/Closures.tla (HISTORY machine:
 Create(i) / EndScope / CallLater(h, args) / Partial(h, mask) / NamedRef(f, arity); log = results
-under the definitional semantics = the oracle; ilog = results under EvalI, only used to classify a
-failure and to let TLC exhibit the sharing defect as a refuted invariant), spec/HOF.tla
+under the definitional semantics = the oracle; ilog = results under EvalI = the design of the CURRENT
+code, only used to classify a failure and to let TLC exhibit the remaining design defect as a refuted
+invariant - the token-sharing defect until /repo e070bf1, now the static partial application), spec/HOF.tla
 (value-state machine: accumulator sequence, one action per higher-order function; laws as
 invariants).
 
@@ -334,7 +335,10 @@ def hazards(tpl_id: str, tpl: dict, n: int, events, j: int) -> dict:
     root, chain = root_of(e['h'])
     named_root = root > n or tpl['kind'] == 'named'
     callee_kind = 'partial' if chain else ('named' if named_root else tpl['kind'])
-    stale = root <= n and root < n and tpl['kind'] in ('inline', 'partial-inline', 'partial-named')
+    # an EARLIER function item of an inline function expression (a later evaluation of the expression exists)
+    stale = root < n and tpl['kind'] == 'inline'
+    # several items made by one partial-application expression: 'static' name(a, ?) / 'dynamic' $f(a, ?)
+    form = {'partial-named': 'static', 'partial-inline': 'dynamic'}.get(tpl['kind'])
     slots = False
     if chain:
         made = min(chain)        # the first partial application on the way from the root
@@ -352,7 +356,7 @@ def hazards(tpl_id: str, tpl: dict, n: int, events, j: int) -> dict:
     return dict(part='closures', template=tpl_id, scope=tpl['scope'], kind=callee_kind, same_site=n,
                 callee_last=(root == n) if root <= n else None,
                 stale_capture=bool(stale), slots_shared=bool(slots),
-                lazy_fixed=tpl['kind'] in ('partial-inline', 'partial-named'),
+                lazy_fixed=tpl['kind'] in ('partial-inline', 'partial-named'), partial_form=form,
                 param_collision=bool(tpl['collision']), order=order)
 
 
@@ -410,7 +414,7 @@ def direct_worker(job):
             if obs != exp:
                 feat = dict(part='closures', template=tpl_id, scope=tpl['scope'], kind=tpl['kind'], same_site=1, callee_last=True,
                             stale_capture=False, slots_shared=False,
-                            lazy_fixed=False, param_collision=bool(tpl['collision']), order='first',
+                            lazy_fixed=False, partial_form=None, param_collision=bool(tpl['collision']), order='first',
                             binding='direct', outcome='value' if out[0] == 'ok' else f'{out[0]}:{out[1]}',
                             as_implemented=(obs == imp) if out[0] == 'ok' else (is_poison(imp) and imp[0][1] == out[1]))
                 fails.append((feat, dict(part='direct', text=text, parser=v), exp, obs if obs is not None else list(out)))
